@@ -60,6 +60,7 @@ func Run(p *load.Program, tier string) *oblig.Set {
 	r.v11()
 	r.ctxIDs()
 	r.dumpRule()
+	r.windowRule()
 	r.arrRule()
 	r.loopExit()
 	r.captures()
